@@ -380,3 +380,31 @@ theorem C25_spec_empty_iff (acts : List Act) (k : Nat) :
       have : l.waiters = [] := List.map_eq_nil_iff.mp h2
       simp [this]
   · intro h; rw [h]; rfl
+
+/-! ## FIFO over histories -/
+
+/-- No overtaking, for every history.  Let `a` be a live (queued, not cancelled) waiter
+on `k` and `b ≠ a` any agent that is not inside and is either not present or queued
+behind `a` (`behind`).  Along ANY continuation in which `a` is not cancelled — newcomers,
+cancellations of others, `b` leaving and re-queueing, actions on other keys — whenever
+`b` is inside the critical section, `a` has been inside it before (or is now: impossible by
+`C25_mutex`).  Together with `C25_fifo_progress` this is full FIFO service among
+uncancelled waiters; `C25_fifo_no_barging` is its one-step instance for an absent `b`. -/
+theorem C25_fifo_no_overtaking (pre acts : List Act) (k a b : Nat)
+    (hl : live ((run pre).slot k) a = true) (hab : a ≠ b)
+    (hb : behind ((run pre).slot k) a b = true)
+    (hnc : (⟨k, .cancel a⟩ : Act) ∉ acts) (n : Nat)
+    (hin : b ∈ ((run (pre ++ acts.take n)).slot k).inside) :
+    ∃ m, m ≤ n ∧ a ∈ ((run (pre ++ acts.take m)).slot k).inside := by
+  rw [run_append] at hin
+  obtain ⟨m, hm, hma⟩ := c25x_no_overtake acts (ginv_run pre) hl hab (c25x_behind_sound hb) hnc n hin
+  exact ⟨m, hm, by rw [run_append]; exact hma⟩
+
+/-- non-vacuity: 3 waits behind 2 behind holder 1; 9 is a newcomer-to-be; 3 gets in at step 6 of
+the continuation, 2 was in after step 2. -/
+example :
+    let pre : List Act := [⟨7, .enter 1⟩, ⟨7, .enter 2⟩, ⟨7, .enter 3⟩]
+    let acts : List Act := [⟨7, .exit 1⟩, ⟨7, .resume 2⟩, ⟨7, .enter 9⟩, ⟨7, .cancel 9⟩, ⟨7, .exit 2⟩, ⟨7, .resume 3⟩]
+    live ((run pre).slot 7) 2 = true ∧ behind ((run pre).slot 7) 2 3 = true ∧ behind ((run pre).slot 7) 2 9 = true ∧
+    (⟨7, .cancel 2⟩ : Act) ∉ acts ∧ 3 ∈ ((run (pre ++ acts.take 6)).slot 7).inside ∧
+    2 ∈ ((run (pre ++ acts.take 2)).slot 7).inside := by decide
